@@ -136,7 +136,7 @@ def case_iterate(log, order, nf, method, shape="complex"):
     from eko.kernels import EvoMethods
 
     m = EvoMethods[method]
-    jetmod.set_cap(6)
+    jetmod.set_cap(5)
     log.encode(sg.dispatcher, sg.eko_iterate, ns.dispatcher)
     rp = (MOD, "replay_iterate", {"order": order, "nf": nf, "method": method})
     key = "singlet.%s:%d" % (method, order)
@@ -313,16 +313,23 @@ def main():
     chk.out_of_claim = ["floating point; more than one iteration (C12 gives the per-step order)",
                         "iterate-expanded is compared with the exact non-singlet kernel because the singlet code runs eko_iterate for both labels"]
     shapes = {2: [None], 3: [None], 4: ["complex", "real"] if thorough else ["complex"]}
+    # quick tier: the heavy exact-NNLO/N3LO decompose comparisons with symbolic beta and the higher-order iterate cases
+    # are left to the thorough tier (decompose-exact at NNLO stays in quick through the concrete nf=4 run below)
+    heavy = {("exact", "DECOMPOSE_EXACT", 3), ("exact", "DECOMPOSE_EXACT", 4), ("iterate", "ITERATE_EXACT", 3), ("iterate", "ITERATE_EXPANDED", 3),
+             ("iterate", "ITERATE_EXACT", 4), ("iterate", "ITERATE_EXPANDED", 4), ("jets", "ORDERED_TRUNCATED", 4), ("jets", "PERTURBATIVE_EXPANDED", 4)}
     for o in (2, 3, 4):
         for sh in shapes[o]:
             tag = ("." + sh) if sh else ""
             kw = {"shape": sh} if sh else {}
             for meth in EXACT_GROUP:
-                chk.case("exact.%s.o%d.sym%s" % (meth, o, tag), case_exact, order=o, nf=None, method=meth, **kw)
+                if thorough or ("exact", meth, o) not in heavy:
+                    chk.case("exact.%s.o%d.sym%s" % (meth, o, tag), case_exact, order=o, nf=None, method=meth, **kw)
             for meth in ("ORDERED_TRUNCATED", "PERTURBATIVE_EXACT", "PERTURBATIVE_EXPANDED"):
-                chk.case("jets.%s.o%d.sym%s" % (meth, o, tag), case_jets, order=o, nf=None, method=meth, **kw)
+                if thorough or ("jets", meth, o) not in heavy:
+                    chk.case("jets.%s.o%d.sym%s" % (meth, o, tag), case_jets, order=o, nf=None, method=meth, **kw)
             for meth in ("ITERATE_EXACT", "ITERATE_EXPANDED"):
-                chk.case("iterate.%s.o%d.sym%s" % (meth, o, tag), case_iterate, order=o, nf=None, method=meth, **kw)
+                if thorough or ("iterate", meth, o) not in heavy:
+                    chk.case("iterate.%s.o%d.sym%s" % (meth, o, tag), case_iterate, order=o, nf=None, method=meth, **kw)
     # the same through the real eko.beta values (orders 2-3; at order 4 the closed-form roots of the concrete
     # cubic make the normal forms too large -- covered by the symbolic-beta runs above, which hold for every nf)
     for nf in ((3, 4, 5, 6) if thorough else (4,)):
